@@ -1865,10 +1865,18 @@ def engine_anchor(w, which):
     def role(fi):
       if fi.params() != ["self"] or not mentions_attr(fi, "recompute_map"):
         return False
-      # the one that apply_user_actions (or a private part of it) calls
-      return any(g.qualname.startswith(E_ + ".apply_user_actions") or
-                 is_private_part(w, g)[1] == E_ + ".apply_user_actions"
-                 for (g, ok) in referrers(w, fi) if ok)
+      # the one that apply_user_actions (or a private part of it) calls in the loop of the
+      # auto-removal rounds
+      for (g, ok) in referrers(w, fi):
+        if not ok or not (g.qualname.startswith(E_ + ".apply_user_actions") or
+                          is_private_part(w, g)[1] == E_ + ".apply_user_actions"):
+          continue
+        for lp in ast.walk(g.node):
+          if isinstance(lp, (ast.While, ast.For)):
+            attrs = {x.attr for x in ast.walk(lp) if isinstance(x, ast.Attribute)}
+            if fi.name in attrs and "apply_auto_removes" in attrs:
+              return True
+      return False
     return find_by_role(w, E_, "_bring_all_up_to_date", role, "recalculation of all dirty nodes")
   if which == "undo":
     def role(fi):
